@@ -19,6 +19,7 @@ A *script* is a list of events of M-Session's alphabet (see `lean/ExaModel/Model
     ['tick']                     one iteration of the main loop with no message (0.1 s read timeout)
     ['teardown', code] ['reestablish'] ['stop']     API / reactor requests
     ['queueRefresh'] ['announce', k]                API: route-refresh request, k new routes
+    ['apiDies']                  the API process is gone: every reactor.processes.<callback> raises ProcessError
 
 After every event the loop is stepped until the peer coroutine is blocked at a point only a new
 event can move (pending connect, pending read with nothing readable, restart loop, passive wait);
@@ -445,7 +446,7 @@ DEFAULT_CFG = {
     'passive': False,
     'attempts': 0,  # tcp.attempts (0 = unlimited)
     'routes': 0,  # configured routes (one UPDATE each)
-    'parse': True,  # received UPDATEs are decoded (api receive-update parsed)
+    'parse': False,  # api receive-update + parsed on their own (api_forward sets them for every kind)
     'graceful': False,  # graceful-restart capability
     'api_changes': True,  # api neighbor-changes: up / down / connected go to the API process
     'api_forward': False,  # api receive { parsed; open; update; notification; keepalive; refresh; operational; }
@@ -899,7 +900,7 @@ def model_cfg_line(cfg: dict | None) -> str:
     c = dict(DEFAULT_CFG)
     c.update(cfg or {})
     hold0 = min(c['hold'], c['peer_hold']) == 0
-    return f"session init {int(bool(c['passive']))} {int(c['attempts'])} {int(hold0)} {int(bool(c['graceful']))} {int(c['routes'] > 0)}"
+    return f"session init {int(bool(c['passive']))} {int(c['attempts'])} {int(hold0)} {int(bool(c['graceful']))} {int(c['routes'] > 0)} {int(bool(c['api_changes']))} {int(bool(c['api_forward']))}"
 
 
 def model_line(ev: list) -> str:
@@ -991,7 +992,7 @@ STAGES: dict[str, tuple[list[list], int]] = {
 def alphabet(c: int) -> list[list]:
     """Every event of the model's alphabet, messages addressed to connection c (1 if none yet)."""
     c = c or 1
-    evs: list[list] = [['start'], ['connectOk'], ['connectFail'], ['incoming'], ['eof', c], ['sockError', c], ['openwaitExpired'], ['holdExpired'], ['tick'], ['teardown', 2], ['teardown', 4], ['reestablish'], ['stop'], ['queueRefresh'], ['announce', 1]]
+    evs: list[list] = [['start'], ['connectOk'], ['connectFail'], ['incoming'], ['eof', c], ['sockError', c], ['openwaitExpired'], ['holdExpired'], ['tick'], ['teardown', 2], ['teardown', 4], ['reestablish'], ['stop'], ['queueRefresh'], ['announce', 1], ['apiDies']]
     evs += [['recv', c, k] for k in KINDS]
     return evs
 
@@ -1016,6 +1017,22 @@ def systematic_scripts() -> list[tuple[list[list], dict, str]]:
             out.append((prefix + [ev] + TAIL, {'attempts': 2, 'routes': 1}, f'attempts2/{stage}/{ev[0]}'))
         for ev in [['teardown', 2], ['reestablish'], ['stop']]:
             out.append((prefix + [ev] + TAIL, {'graceful': True}, f'graceful/{stage}/{ev[0]}'))
+    # the API process dies: every event at the main stages, for each combination of the api options
+    for stage in ('backoff', 'connecting', 'adopted-idle', 'opensent', 'openconfirm', 'established-fresh', 'established'):
+        prefix, c = STAGES[stage]
+        for api in ({'api_changes': True, 'api_forward': True}, {'api_changes': False, 'api_forward': True}, {'api_changes': True, 'api_forward': False}):
+            tag = 'api-dead:' + ('c' if api['api_changes'] else '') + ('f' if api['api_forward'] else '')
+            for ev in alphabet(c):
+                if ev[0] == 'apiDies':
+                    continue
+                cfg = dict(api, routes=1)
+                if ev[0] == 'holdExpired':
+                    cfg['hold'] = 9
+                out.append((prefix + [['apiDies'], ev] + TAIL, cfg, f'{tag}/{stage}/{ev[0]}' + (f':{ev[2]}' if ev[0] == 'recv' else '')))
+    for stage in ('opensent', 'openconfirm', 'established'):
+        prefix, c = STAGES[stage]
+        for k in ('notification', 'keepalive', 'open', 'badMarker', 'update'):
+            out.append((prefix + [['recv', c, k]] + TAIL, {'api_forward': True}, f'api-alive-forward/{stage}/{k}'))
     pas = [['start']]
     for ev in alphabet(1):
         out.append((pas + [ev] + [['incoming'], ['recv', 2 if ev[0] == 'incoming' else 1, 'open']], {'passive': True}, f'passive-wait/{ev[0]}'))
@@ -1053,6 +1070,7 @@ def random_script(rng: Any, drv: Any, maxlen: int, fault_weight: float, cfg: dic
         raise RigError('drv_session refused init')
     nconn = 0
     ticks = 0
+    died = False
     n = rng.randrange(3, maxlen + 1)
     hold = min(cfg.get('hold', 180), cfg.get('peer_hold', 180))
     while len(script) < n:
@@ -1065,7 +1083,9 @@ def random_script(rng: Any, drv: Any, maxlen: int, fault_weight: float, cfg: dic
             return ['recv', c, rng.choice(kinds)]
 
         fault = lambda: recv(FAULT_KINDS + SEM_KINDS + ['operational', 'notification', 'notifBadLen'])  # noqa: E731
-        if x < 0.10:
+        if not died and rng.random() < 0.04:
+            ev = ['apiDies']
+        elif x < 0.10:
             ev = rng.choice(alphabet(rng.choice([c, max(1, c - 1), nconn + 1])))
         elif pc in ('backoff', 'done'):
             ev = rng.choices([['start'], ['incoming'], ['stop'], ['teardown', rng.choice([2, 3, 4, 6])], ['reestablish'], ['queueRefresh'], ['announce', 1], recv(PLAIN_KINDS), ['eof', c], ['sockError', c]], [60, 10, 3, 4, 3, 4, 4, 6, 3, 3])[0]
@@ -1095,6 +1115,8 @@ def random_script(rng: Any, drv: Any, maxlen: int, fault_weight: float, cfg: dic
                 continue  # keep the scripted silence below the hold time
         if ev[0] in ('connectOk', 'incoming'):
             nconn += 1
+        if ev[0] == 'apiDies':
+            died = True
         script.append(ev)
         buckets.append(parse_bucket(drv.ask(model_line(ev))))
     return script, buckets
@@ -1476,7 +1498,7 @@ def run_property(ctx: Any, prop: str, fault_weight: float) -> None:
     for script, cfg, origin in systematic_scripts():
         cases.append((script, cfg, 'systematic:' + origin, None))
     if spec is not None:
-        variants = [{}, {}, {'routes': 3}, {'routes': 3, 'hold': 9}, {'attempts': 1}, {'attempts': 3, 'routes': 1}, {'passive': True}, {'graceful': True, 'routes': 1}, {'hold': 3, 'routes': 1}, {'hold': 0}, {'hold': 180, 'peer_hold': 90}]
+        variants = [{}, {}, {'routes': 3}, {'routes': 3, 'hold': 9}, {'attempts': 1}, {'attempts': 3, 'routes': 1}, {'passive': True}, {'graceful': True, 'routes': 1}, {'hold': 3, 'routes': 1}, {'hold': 0}, {'hold': 180, 'peer_hold': 90}, {'api_forward': True}, {'api_forward': True, 'routes': 1}, {'api_changes': False}, {'api_changes': False, 'api_forward': True}]
         for i in range(n_random):
             cfg = dict(rng.choice(variants))
             script, model_b = random_script(rng, spec, maxlen, fault_weight, cfg)
